@@ -7,7 +7,7 @@ from . import core
 
 
 def dispatch(prop):
-    if prop in ("C01", "C05", "C13"):
+    if prop in ("C01", "C05", "C13", "C03", "C12"):
         from . import props_broker
         return getattr(props_broker, prop.lower())
     raise SystemExit("no check registered for %s" % prop)
